@@ -543,7 +543,7 @@ func genFeedCase(rt *rapid.T) tfCase {
 
 func TestC16(t *testing.T) {
 	st := statsFor("C16", "TestC16")
-	st.Rule = "each generated configuration runs in a child process: 1-3 handles x 2-3 collections x 1-4 feeds (live, dump, multi-collection) started through generated handles, then generated orders of terminator closes, collection drops through any handle, handle closes (first / last) and bucket deletion, with writes in between; after every action each feed that must have ended (terminator, dump, its collection dropped, bucket deleted, last handle of an on-disk bucket closed) must have closed its done channel, every other feed must still receive a write made through a surviving handle to each of its collections; no callback after done, no second close of a done channel (would panic), no feed goroutine after store shutdown; a quarter of the cases instead hold a dump / live feed inside its callback at a generated event with more events queued, close its terminator there and let go: the feed must end without delivering the queued events (one already taken from the queue is tolerated) while a sibling feed keeps running; non-trivial = the handle that ends something differs from the handle that started the affected feed, or a sibling feed must survive the action; distinct by configuration"
+	st.Rule = "each generated configuration runs in a child process: 1-3 handles x 2-3 collections (the first names of the pool, or drawn from it: one name in two scopes, names differing only in case) x 1-4 feeds (live, dump, checkpointed with own / shared ID, multi-collection over all or over the named collections only) started through generated handles, then generated orders of terminator closes, collection drops through any handle, handle closes (first / last) and bucket deletion, with writes in between; after every action each feed that must have ended (terminator, dump, its collection dropped, bucket deleted, last handle of an on-disk bucket closed) must have closed its done channel, every other feed must still receive a write made through a surviving handle to each of its collections; no callback after done, no second close of a done channel (would panic), no feed goroutine after store shutdown; a quarter of the cases instead hold a dump / live feed inside its callback at a generated event with more events queued, close its terminator there and let go: the feed must end without delivering the queued events (one already taken from the queue is tolerated) while a sibling feed keeps running; non-trivial = the handle that ends something differs from the handle that started the affected feed, or a sibling feed must survive the action; distinct by configuration"
 	if replayMode() {
 		rp := loadReplay("TestC16")
 		if rp == nil {
